@@ -299,7 +299,10 @@ func (d Decimal) PowWithMode(o Decimal, mode RoundingMode) Decimal {
 	}
 
 	if !oNeg && oExp >= exponentBias && dSig == (uint128{1, 0}) {
-		if oSig[1] != 0 || oSig[0] > maxUnbiasedExponent {
+		// exponents this large leave the range for every power of ten other
+		// than 1; smaller ones are decided from the exact result exponent
+		// below (0.1**6176 and 10**6144 are still representable)
+		if oSig[1] != 0 || oSig[0] > 1_000_000 {
 			if dExp == exponentBias {
 				return one(neg)
 			}
